@@ -125,6 +125,16 @@ Proof.
       destruct Hbc as [Hbc|Hbc]; apply Z.eqb_eq in Hbc; lia).
 Qed.
 
+Lemma ax_good_raw : forall os ns oc nc i b,
+  let f := ax_f os ns in let h := oc / f in let cff := nc / h in
+  let j := i * cff + b in let olo := oc * j in let ohi := Z.min (oc * (j + 1)) os in
+  let e := Z.min (nc * (i + 1)) ns - nc * i in let src := ceil_div (ohi - olo) f in
+  0 <= olo < os -> olo mod f = 0 -> ((ohi - olo) mod f = 0 \/ ohi = os) ->
+  olo / f = nc * i + ax_dlo b e h ->
+  (bc_ok src (ax_dext b e h) = true -> src = ax_dext b e h) ->
+  ax_good os ns oc nc i b.
+Proof. intros. constructor; assumption. Qed.
+
 (* one new chunk along the axis (ns <= nc): only chunk 0 *)
 Lemma axis_single : forall os ns oc nc i b,
   0 < os -> 0 < oc -> 0 < nc -> ns = ceil_div os (ax_f os ns) ->
@@ -136,14 +146,87 @@ Lemma axis_single : forall os ns oc nc i b,
 Proof.
   intros os ns oc nc i b Hos Hoc Hnc Hns Hh Hle Hcase Hi Hlt Hb Hc.
   assert (i = 0) by nia. subst i.
-  unfold ax_exact, ax_src, ax_ohi, ax_olo, ax_j, ax_e, ax_cond, ax_dext, ax_dlo in *.
-  set (cff := ax_cff os ns oc nc) in *. clearbody cff.
-  unfold ax_h in *. unfold ceil_div in *.
-  replace (0 * cff) with 0 in * by ring.
+  unfold ax_exact, ax_src, ax_ohi, ax_olo, ax_j, ax_e, ax_cond in *.
+  unfold ax_cff, ax_h in *.
+  split; [apply ax_good_raw; cbv zeta|];
+  unfold ax_dext, ax_dlo, bc_ok, ceil_div in *;
+  replace (0 * (nc / (oc / ax_f os ns))) with 0 by ring;
   destruct (ax_f_cases os ns) as [Hf|Hf]; rewrite Hf in *;
-  destruct Hb as [-> | ->]; simpl (0 =? 0) in *; simpl (1 =? 0) in *; cbv iota in *;
-  try (rewrite orb_false_l in Hc; apply Z.ltb_lt in Hc);
-  (split; [constructor; unfold ax_src, ax_ohi, ax_olo, ax_j, ax_e, ax_dext, ax_dlo, ax_h, bc_ok, ceil_div;
-            fold cff; replace (0 * cff) with 0 by ring; rewrite ?Hf;
-            simpl (0 =? 0); simpl (1 =? 0); cbv iota; try lia | lia]).
+  destruct Hb as [Hb|Hb]; subst b; simpl (0 =? 0) in *; simpl (1 =? 0) in *; cbv iota in *;
+  try (rewrite orb_false_l in Hc; apply Z.ltb_lt in Hc); try lia.
+Qed.
+
+(* old chunk = f * h and h divides the new chunk *)
+Lemma axis_divisible : forall os ns oc nc i b,
+  0 < os -> 0 < nc -> ns = ceil_div os (ax_f os ns) ->
+  1 <= ax_h os ns oc -> ax_f os ns * ax_h os ns oc = oc -> nc mod ax_h os ns oc = 0 ->
+  (ax_h os ns oc = 1 -> nc <= 2) ->
+  0 <= i -> nc * i < ns -> (b = 0 \/ b = 1) ->
+  ax_cond b (ax_e ns nc i) (ax_h os ns oc) = true ->
+  ax_good os ns oc nc i b /\ (nc <= 2 * ax_h os ns oc -> ax_exact os ns oc nc i b).
+Proof.
+  intros os ns oc nc i b Hos Hnc Hns Hh Hfh Hmod H1 Hi Hlt Hb Hc.
+  set (f := ax_f os ns) in *. set (h := ax_h os ns oc) in *.
+  assert (Hq : nc = (nc / h) * h).
+  { rewrite Z.mul_comm. apply Z.div_exact; lia. }
+  set (q := nc / h) in *.
+  assert (Hq1 : 1 <= q) by nia.
+  assert (Hh1 : h = 1 -> q <= 2) by (intro E; specialize (H1 E); nia).
+  assert (Hlt' : q * h * i < ns) by (rewrite <- Hq; exact Hlt).
+  assert (Hoc : oc = f * h) by lia.
+  assert (Hcff : ax_cff os ns oc nc = q) by reflexivity.
+  pose proof (axis_core f h q os ns i b (ax_f_cases os ns) Hh Hq1 Hh1 Hos Hns Hi Hlt' Hb) as K.
+  cbv zeta in K. rewrite <- Hq in K. unfold ax_e in Hc. specialize (K Hc).
+  destruct K as [K1 [K2 [K3 [K4 [K5 K6]]]]].
+  split.
+  - apply ax_good_raw; cbv zeta; change (oc / ax_f os ns) with h; change (ax_f os ns) with f;
+    change (nc / h) with q; rewrite Hoc; assumption.
+  - intro Hle. unfold ax_exact, ax_src, ax_ohi, ax_olo, ax_j, ax_e. fold f h. rewrite Hcff, Hoc.
+    apply K6. apply (Z.mul_le_mono_pos_r q 2 h); lia.
+Qed.
+
+Lemma compat_axis_good : forall os ns oc nc i b,
+  0 < os -> 0 < oc -> 0 < nc -> ns = ceil_div os (ax_f os ns) ->
+  compat_axis os ns oc nc = true ->
+  0 <= i -> nc * i < ns -> (b = 0 \/ b = 1) ->
+  ax_cond b (ax_e ns nc i) (ax_h os ns oc) = true ->
+  ax_good os ns oc nc i b /\ ax_exact os ns oc nc i b.
+Proof.
+  intros os ns oc nc i b Hos Hoc Hnc Hns Hcp Hi Hlt Hb Hc.
+  unfold compat_axis in Hcp. fold (ax_h os ns oc) in Hcp.
+  apply andb_true_iff in Hcp. destruct Hcp as [Hh Hcp]. apply Z.leb_le in Hh.
+  apply orb_true_iff in Hcp. destruct Hcp as [Hcp|Hcp].
+  - apply andb_true_iff in Hcp. destruct Hcp as [H1 H2]. apply Z.leb_le in H1, H2.
+    apply axis_single; auto.
+  - apply andb_true_iff in Hcp. destruct Hcp as [Hfh Hcp]. apply Z.eqb_eq in Hfh.
+    apply orb_true_iff in Hcp. destruct Hcp as [Hcp|Hcp];
+      apply andb_true_iff in Hcp; destruct Hcp as [H1 H2].
+    + apply Z.leb_le in H1, H2. apply axis_single; auto.
+    + apply Z.eqb_eq in H1. apply Z.leb_le in H2.
+      destruct (axis_divisible os ns oc nc i b) as [G E]; auto; try lia.
+Qed.
+
+Lemma guard_axis_good : forall os ns oc nc i b,
+  0 < os -> 0 < oc -> 0 < nc -> ns = ceil_div os (ax_f os ns) ->
+  guard_axis os ns oc nc = true ->
+  0 <= i -> nc * i < ns -> (b = 0 \/ b = 1) ->
+  ax_cond b (ax_e ns nc i) (ax_h os ns oc) = true ->
+  ax_good os ns oc nc i b.
+Proof.
+  intros os ns oc nc i b Hos Hoc Hnc Hns Hg Hi Hlt Hb Hc.
+  unfold guard_axis in Hg. fold (ax_h os ns oc) in Hg.
+  apply orb_true_iff in Hg. destruct Hg as [Hg|Hg].
+  - apply compat_axis_good; assumption.
+  - apply andb_true_iff in Hg. destruct Hg as [Hg H3]. apply andb_true_iff in Hg.
+    destruct Hg as [H1 H2]. apply Z.eqb_eq in H1, H3. apply Z.leb_le in H2.
+    destruct (axis_divisible os ns oc nc i b) as [G E]; auto; lia.
+Qed.
+
+Lemma guard_axis_half_pos : forall os ns oc nc, guard_axis os ns oc nc = true -> 1 <= ax_h os ns oc.
+Proof.
+  intros os ns oc nc Hg. unfold guard_axis, compat_axis in Hg. fold (ax_h os ns oc) in Hg.
+  apply orb_true_iff in Hg. destruct Hg as [Hg|Hg].
+  - apply andb_true_iff in Hg. destruct Hg as [Hg _]. apply Z.leb_le in Hg. exact Hg.
+  - apply andb_true_iff in Hg. destruct Hg as [Hg _]. apply andb_true_iff in Hg.
+    destruct Hg as [_ Hg]. apply Z.leb_le in Hg. lia.
 Qed.
